@@ -28,6 +28,7 @@ static size_t g_max_chunk = 0;
 static int g_zero_every = 0, g_zero_run = 1;
 static long g_zero_streak = 0;
 static long g_bound = 5000;
+static bool g_sparse = false;
 
 static void
 viol(const char* kind, const char* fmt, ...)
@@ -55,6 +56,7 @@ reset()
     g_zero_run = 1;
     g_zero_streak = 0;
     g_bound = 5000;
+    g_sparse = false;
 }
 void
 begin_op()
@@ -80,6 +82,11 @@ void
 clear_faults()
 {
     g_faults.clear();
+}
+void
+set_sparse(bool on)
+{
+    g_sparse = on;
 }
 void
 set_short(size_t max_chunk, int zero_every, int zero_run)
@@ -246,6 +253,13 @@ extern "C"
             }
         }
         g_zero_streak = 0;
+        if (g_sparse && n > (1u << 20)) {
+            if (::pwrite(fd, buf, 4096, off) != 4096)
+                return -1;
+            if (::pwrite(fd, (const char*)buf + n - 4096, 4096, off + (off_t)(n - 4096)) != 4096)
+                return -1;
+            return (ssize_t)n;
+        }
         size_t m = n;
         if (g_max_chunk && n > g_max_chunk) {
             m = g_max_chunk;
